@@ -13,6 +13,15 @@
 //                      that directory>/name).  The same name may occur twice (the later export overwrites).  When the
 //                      whole group is written, the five files of every entry are read back from disk:
 //                      "<aux>|<nodes>|<pl>|<nets>|<scl> # <hpwl of that entry's circuit>" joined by " || "
+// LF id mode name seed <circuit>
+//                   -> exports at DIFFERENT MOMENTS OF ONE OBJECT'S LIFE, all under the SAME name (mode as above) in DIR/l<id>: outside the
+//                      placement calls after public edits (setCellX/Y, setCellOrientation, setSolution, setCellWidth/Height, addNet,
+//                      setNets) and from INSIDE the callbacks of placeGlobal / legalize / placeDetailed (the first invocation always, later
+//                      ones in 60 %; in 35 % of the global callbacks setCellWidth / setCellHeight is called after the export,
+//                      sometimes followed by one more export in the same callback; seldom a resize in a legalize / detailed callback, which
+//                      makes that call throw).  The phases are drawn from `seed`.  Every export is snapshot at once:
+//                      "<aux>|<nodes>|<pl>|<nets>|<scl> # <hpwl at that moment> @ <circuit at that moment, from the getters> @ <label>"
+//                      joined by " || "; the five files are copied to DIR/l<id>/s<k>/ for the reader.   (ispd gen life SEED COUNT)
 // <circuit> = ncells (w h fixed obstruction polarity x y orient)* nnets (npins (cell xo yo)*)* nrows (minX maxX minY maxY orient)*
 //             orient 0..9 = N S W E FN FS FW FE INVALID UNKNOWN; polarity 0..4 = ANY SAME OPPOSITE NW SE
 #include <filesystem>
@@ -125,6 +134,113 @@ static std::string genCircuit(SplitMix &g) {
 }
 
 static std::string gBase;   // absolute path of DIR
+
+// ---- LF: exports at different moments of ONE object's life (see the header).  Generator of the placeable circuit:
+//  2-5 full-width rows of one height (2,4,6,8) stacked, N / FS alternating, uniform or irregular (N S FN FS); 3-8 movable cells (1-5 wide,
+//  row-high, 15 % two rows high, orientation N / S / FN / FS, utilisation <= ~60 %), 0-2 fixed cells (any of the eight orientations, 1-6 x 1-3
+//  rows, obstruction flag either way); 2-6 nets of 2-4 pins with offsets on the declared outline [0,w] x [0,h].
+static std::string genLife(SplitMix &g) {
+  std::ostringstream s; static const int up[4] = {0, 1, 4, 5};
+  long long rh = 2 * g.uni(1, 4), W = g.uni(20, 60), x0 = g.uni(-20, 20), y0 = g.uni(-20, 20); int nr = (int)g.uni(2, 5);
+  int nm = (int)g.uni(3, 8), nf = (int)g.uni(0, 2), nc = nm + nf; std::vector<long long> w(nc), h(nc); long long used = 0;
+  s << nc;
+  for (int i = 0; i < nc; ++i) {
+    bool fixed = i >= nm; int o;
+    if (fixed) { w[i] = g.uni(1, 6); h[i] = rh * g.uni(1, 3); o = (int)g.uni(0, 7); }
+    else { w[i] = g.uni(1, 5); h[i] = rh * (g.coin(15) ? 2 : 1); o = up[g.uni(0, 3)]; if (used + w[i] * (h[i] / rh) > W * nr * 6 / 10) { w[i] = 1; h[i] = rh; } used += w[i] * (h[i] / rh); }
+    s << " " << w[i] << " " << h[i] << " " << (fixed ? 1 : 0) << " " << (g.coin(70) ? 1 : 0) << " " << (fixed || g.coin(80) ? 0 : g.uni(1, 2)) << " " << x0 + g.uni(0, W - 1) << " " << y0 + g.uni(0, nr - 1) * rh << " " << o;
+  }
+  int nn = (int)g.uni(2, 6); s << " " << nn;
+  for (int n = 0; n < nn; ++n) { int np = (int)g.uni(2, 4); s << " " << np; for (int j = 0; j < np; ++j) { int c = (int)g.uni(0, nc - 1); s << " " << c << " " << g.uni(0, w[c]) << " " << g.uni(0, h[c]); } }
+  s << " " << nr; int pat = (int)g.uni(0, 2);
+  for (int i = 0; i < nr; ++i) s << " " << x0 << " " << x0 + W << " " << y0 + i * rh << " " << y0 + (i + 1) * rh << " " << (pat == 0 ? (i % 2 ? 5 : 0) : pat == 1 ? 0 : up[g.uni(0, 3)]);
+  return s.str();
+}
+// the circuit as it is NOW, in the <circuit> format, read from the object (getters; the net arrays are public members)
+static std::string circuitInts(const Circuit &c) {
+  std::ostringstream s; s << c.nbCells();
+  for (int i = 0; i < c.nbCells(); ++i)
+    s << " " << c.cellWidth()[i] << " " << c.cellHeight()[i] << " " << (int)c.cellIsFixed()[i] << " " << (int)c.cellIsObstruction()[i] << " " << (int)c.cellRowPolarity()[i]
+      << " " << c.cellX()[i] << " " << c.cellY()[i] << " " << (int)c.cellOrientation()[i];
+  s << " " << c.nbNets();
+  for (int n = 0; n < c.nbNets(); ++n) { s << " " << c.nbPinsNet(n); for (int p = c.netLimits_[n]; p < c.netLimits_[n + 1]; ++p) s << " " << c.pinCells_[p] << " " << c.pinXOffsets_[p] << " " << c.pinYOffsets_[p]; }
+  s << " " << c.rows().size();
+  for (auto &r : c.rows()) s << " " << r.minX << " " << r.maxX << " " << r.minY << " " << r.maxY << " " << (int)r.orientation;
+  return s.str();
+}
+static const char *kStepName[4] = {"LowerBound", "UpperBound", "Detailed", "PenaltyUpdate"};
+// LF id mode name seed <circuit>: ONE Circuit lives through 2-4 phases drawn from `seed`; exportIspd(name) -- always the SAME name -- is called
+// outside the placement calls and from inside their callbacks; each export is snapshot at once (the five files copied to DIR/l<id>/s<k>/, the
+// circuit dumped through its getters, hpwl()).
+static void runLife(const std::string &line) {
+  std::istringstream in(line); std::string tag, id, name; int mode = 0; unsigned long long seed = 0;
+  in >> tag >> id >> mode >> name >> seed;
+  Reader r; long long v; while (in >> v) r.v.push_back(v);
+  Circuit c = readCircuit(r); SplitMix g(seed);
+  std::string dg = gBase + "/l" + id; std::filesystem::create_directories(dg);
+  const char *ext[5] = {".aux", ".nodes", ".pl", ".nets", ".scl"};
+  std::vector<std::string> outs; int nexp = 0;
+  auto snap = [&](const std::string &label) {
+    if (nexp >= 14) return;
+    int k = nexp++; std::string rec;
+    try {
+      if (chdir(dg.c_str()) != 0) throw std::runtime_error("cannot chdir to the case directory");
+      c.exportIspd(mode == 1 ? dg + "/" + name : name);
+      if (chdir(gBase.c_str()) != 0) throw std::runtime_error("cannot chdir back");
+      std::string sd = dg + "/s" + std::to_string(k); std::filesystem::create_directories(sd);
+      for (int e = 0; e < 5; ++e) { std::string body = slurp(dg + "/" + name + ext[e]); std::ofstream f(sd + "/" + name + ext[e], std::ios::binary); f << body; if (e) rec += "|"; rec += esc(body); }
+      rec += " # " + std::to_string(c.hpwl());
+    } catch (std::exception &ex) { if (chdir(gBase.c_str()) != 0) {} rec = std::string("EXPORT-THROW ") + esc(ex.what()) + " # 0"; }
+    outs.push_back(rec + " @ " + circuitInts(c) + " @ " + label);
+  };
+  int nc = c.nbCells(); std::vector<int> mov, fix; for (int i = 0; i < nc; ++i) (c.cellIsFixed()[i] ? fix : mov).push_back(i);
+  auto pick = [&](const std::vector<int> &v) { return v[g.uni(0, v.size() - 1)]; };
+  auto resize = [&]() -> std::string {   // public size setters (allowed while a placement runs; global placement supports it)
+    if (!fix.empty() && g.coin(20)) { auto h = c.cellHeight(); int f = pick(fix); h[f] += (int)g.uni(1, 3); c.setCellHeight(h); return "setCellHeight(fixed cell " + std::to_string(f) + ")"; }
+    auto w = c.cellWidth(); int n = 0; for (int i : mov) if (g.coin(60)) { w[i] = std::max(1, w[i] + (int)g.uni(-1, 3)); ++n; }
+    if (!n && !mov.empty()) w[mov[0]] += 2;
+    c.setCellWidth(w); return "setCellWidth(movable cells)"; };
+  auto renet = [&]() -> std::string {     // setNets: the last net dropped, or one pin offset moved (outside a placement call only)
+    std::vector<int> lim = c.netLimits_, pc = c.pinCells_, px = c.pinXOffsets_, py = c.pinYOffsets_;
+    if (c.nbNets() > 1 && g.coin(50)) { int cut = lim[lim.size() - 2]; lim.pop_back(); pc.resize(cut); px.resize(cut); py.resize(cut); c.setNets(lim, pc, px, py); return "setNets(last net dropped)"; }
+    if (!px.empty()) { int q = (int)g.uni(0, px.size() - 1); px[q] += (int)g.uni(1, 2); py[q] += (int)g.uni(0, 1); }
+    c.setNets(lim, pc, px, py); return "setNets(one pin offset moved)"; };
+  auto outside = [&]() -> std::string {
+    switch ((int)g.uni(0, 5)) {
+      case 0: { auto x = c.cellX(), y = c.cellY(); for (int i = 0; i < nc; ++i) if (g.coin(60)) { x[i] += (int)g.uni(-4, 4); y[i] += (int)g.uni(-2, 2); } c.setCellX(x); c.setCellY(y); return "setCellX/Y"; }
+      case 1: { auto o = c.cellOrientation(); static const CellOrientation up[4] = {CellOrientation::N, CellOrientation::S, CellOrientation::FN, CellOrientation::FS};
+                for (int i = 0; i < nc; ++i) if (g.coin(50)) o[i] = c.cellIsFixed()[i] ? (CellOrientation)g.uni(0, 7) : up[g.uni(0, 3)]; c.setCellOrientation(o); return "setCellOrientation"; }
+      case 2: return resize();
+      case 3: { int np = (int)g.uni(2, 3); std::vector<int> cs, xo, yo; for (int j = 0; j < np; ++j) { int k = (int)g.uni(0, nc - 1); cs.push_back(k); xo.push_back((int)g.uni(0, c.cellWidth()[k])); yo.push_back((int)g.uni(0, c.cellHeight()[k])); }
+                c.addNet(cs, xo, yo); return "addNet"; }
+      case 4: return renet();
+      default: { auto s = c.solution(); for (auto &pl : s) if (g.coin(40)) { pl.position.x += (int)g.uni(-3, 3); pl.position.y += (int)g.uni(-1, 1); } c.setSolution(s); return "setSolution"; }
+    } };
+  if (g.coin(60)) snap("before any placement call");
+  int nph = (int)g.uni(2, 4);
+  for (int ph = 0; ph < nph; ++ph) {
+    int kind = (int)g.uni(0, 9);
+    if (kind <= 2) { std::string what = outside(); if (g.coin(40)) what += " + " + outside(); snap("outside a placement call, after " + what); continue; }
+    int stage = kind <= 6 ? 0 : kind == 7 ? 1 : 2; const char *sname = stage == 0 ? "placeGlobal" : stage == 1 ? "legalize" : "placeDetailed";
+    ColoquinteParameters prm((int)g.uni(1, 3)); prm.global.maxNbSteps = (int)g.uni(2, 5); prm.global.nbInitialSteps = (int)g.uni(0, 1); prm.detailed.nbPasses = 1; prm.seed = (int)g.uni(0, 99);
+    int ninv = 0; std::string pending;
+    PlacementCallback cb = [&](PlacementStep st) {
+      int k = ninv++; std::string where = std::string("inside callback #") + std::to_string(k) + " (" + kStepName[(int)st] + ") of " + sname + (pending.empty() ? "" : ", after " + pending + " in an earlier callback");
+      if (k == 0 || g.coin(60)) snap(where);
+      if (stage == 0 ? g.coin(35) : g.coin(4)) {
+        std::string what = resize(); pending = what;   // (setNets / addNet are refused while a placement runs)
+        if (g.coin(35)) snap(std::string("inside callback #") + std::to_string(k) + " of " + sname + ", right after " + what + " in this callback");
+      }
+    };
+    std::string how = "returned";
+    try { if (stage == 0) c.placeGlobal(prm, cb); else if (stage == 1) c.legalize(prm, cb); else c.placeDetailed(prm, cb); }
+    catch (std::exception &ex) { how = std::string("threw: ") + ex.what(); }
+    if (g.coin(70)) snap(std::string("after ") + sname + " " + how + " (" + std::to_string(ninv) + " callbacks)");
+  }
+  if (outs.empty()) snap("at the end");
+  std::string out; for (size_t i = 0; i < outs.size(); ++i) { if (i) out += " || "; out += outs[i]; }
+  printf("%s\n", out.c_str());
+}
 static void runGroup(const std::string &line) {
   std::istringstream in(line); std::string tag, gid, dir; int n = 0;
   in >> tag >> gid >> dir >> n;
@@ -157,6 +273,12 @@ int main(int argc, char **argv) {
   if (mode == "gen") {
     unsigned long long seed = strtoull(argv[2], nullptr, 10); long long count = atoll(argv[3]);
     SplitMix g(seed);
+    if (argc > 4 && std::string(argv[2]) == "life") {
+      seed = strtoull(argv[3], nullptr, 10); count = atoll(argv[4]); SplitMix gl(seed ^ 0x11feu);
+      static const char *names[6] = {"chip", "chip", "top.placed", "chip.v2", "a", "design_1.final"};
+      for (long long it = 0; it < count; ++it) { int m = (int)gl.coin(35); const char *nm = names[gl.uni(0, 5)]; long long sd = gl.uni(1, 1000000000); printf("LF %llu_%lld %d %s %lld %s\n", seed, it, m, nm, sd, genLife(gl).c_str()); }
+      return 0;
+    }
     for (long long it = 0; it < count; ++it) printf("EX %llu_%lld %s\n", seed, it, genCircuit(g).c_str());
     return 0;
   }
@@ -171,6 +293,7 @@ int main(int argc, char **argv) {
     if (chdir(gBase.c_str()) != 0) return 2;
     try {
       if (line[0] == 'N') runGroup(line);
+      else if (line[0] == 'L') runLife(line);
       else if (line[0] == 'E') {
         size_t sp = line.find(' ', 3);
         std::string id = line.substr(3, sp - 3);
